@@ -326,7 +326,7 @@ def run_lines(binary, lines, timeout=300, env=None, max_restarts=40, sticky="sch
     return rc_first, out, errs
 
 
-def run_blocks(binary, blocks, chunks=16, timeout=900, env=None):
+def run_blocks(binary, blocks, chunks=16, timeout=900, env=None, sticky="schema "):
     """blocks: list of line lists, each starting with its state-setting line. Blocks are distributed over
     `chunks` concurrent processes; output is returned in the original order, flattened."""
     chunks = max(1, min(chunks, len(blocks)))
@@ -335,7 +335,7 @@ def run_blocks(binary, blocks, chunks=16, timeout=900, env=None):
         groups[i % chunks].append(i)
     def job(g):
         lines = [l for i in g for l in blocks[i]]
-        return run_lines(binary, lines, timeout, env)
+        return run_lines(binary, lines, timeout, env, sticky=sticky)
     with ThreadPoolExecutor(chunks) as ex:
         rs = list(ex.map(job, groups))
     outs = [None] * len(blocks); rc = 0; err = ""
